@@ -182,7 +182,7 @@ pub fn run(tier: Tier, rep: &mut Report) -> (String, String) {
     let fams: Vec<(Vec<&str>, usize, usize)> = match tier {
         Tier::Quick => vec![(vec!["a", "b", "ñ"], 6, 3), (vec!["a", "ñ", "€", "😀"], 4, 2)],
         Tier::Thorough => vec![(vec!["a", "b", "ñ"], 8, 4), (vec!["a", "ñ", "€", "😀"], 5, 3), (vec!["a", "b"], 11, 5)],
-        Tier::Miri => vec![(vec!["a", "ñ"], 3, 2)],
+        Tier::Miri => vec![(vec!["a", "ñ"], 2, 1)],
     };
     for (atoms, sl, dl) in &fams {
         let ss = strings_over(atoms, *sl);
@@ -197,7 +197,7 @@ pub fn run(tier: Tier, rep: &mut Report) -> (String, String) {
     }
     // boundary-complete chars as delimiter and as content
     let chars = char_set(if tier == Tier::Thorough { Tier::Quick } else { tier });
-    let step = if tier == Tier::Miri { 7 } else { 1 };
+    let step = if tier == Tier::Miri { 40 } else { 1 };
     let cs: Vec<char> = chars.into_iter().step_by(step).collect();
     bounds += &format!("every char c of the boundary-complete set ({}) as delimiter in [c, c+a+c, a+c+c+b, x+c] and as content around 'a'", cs.len());
     rep.merge(par_each(&cs, th, |c, r| {
